@@ -83,9 +83,9 @@ fn counts(xs: &[u64]) -> BTreeMap<u64, usize> {
 
 /// C23 oracle: the documented result of the blocking operator computed directly from the source
 /// inputs (the pass-through pipelines in front of it preserve the multiset of items).
-fn blocking_oracle(p: &ProgInfo, inputs: &[Vec<Vec<u64>>], outs: &[Vec<Vec<String>>], rec: &mut Recorder) {
-    let w: Vec<&str> = p.oracle.split(' ').collect();
-    if w.is_empty() || p.oracle.is_empty() {
+fn blocking_oracle(p: &ProgInfo, tag: &str, sigp: &str, inputs: &[Vec<Vec<u64>>], outs: &[Vec<Vec<String>>], rec: &mut Recorder) {
+    let w: Vec<&str> = tag.split(' ').collect();
+    if w.is_empty() || tag.is_empty() {
         return;
     }
     let ticks = outs.len();
@@ -96,7 +96,7 @@ fn blocking_oracle(p: &ProgInfo, inputs: &[Vec<Vec<u64>>], outs: &[Vec<Vec<Strin
     let mut cum1: Vec<u64> = vec![];
     let mut emitted: Vec<u64> = vec![];
     let mut prev0: Vec<u64> = vec![];
-    let sig = format!("blocking-input-incomplete@{}", w[0]);
+    let sig = format!("{sigp}@{}", w[0]);
     for t in 0..ticks {
         let i0 = &inputs[0][t];
         let i1: Vec<u64> = if inputs.len() > 1 { inputs[1][t].clone() } else { vec![] };
@@ -242,6 +242,42 @@ thread_local! {
     static SCHED_CACHE: std::cell::RefCell<BTreeMap<&'static str, Option<String>>> = const { std::cell::RefCell::new(BTreeMap::new()) };
 }
 
+/// For a unit program `source -> [tee] -> OP -> [union with empty]` whose operator reads the raw
+/// source, the operator's documented result can be recomputed from the inputs without the model.
+fn unit_oracle_tag(p: &ProgInfo) -> Option<String> {
+    if p.kind != "unit" || p.nsrc != 1 {
+        return None;
+    }
+    let mut ops: Vec<(usize, String, String)> = vec![]; // (id, op words, input refs)
+    for l in p.desc.lines().filter(|l| l.starts_with("node ")) {
+        let (head, refs) = l.split_once(" <-")?;
+        let mut it = head.splitn(3, ' ');
+        it.next();
+        let id: usize = it.next()?.parse().ok()?;
+        ops.push((id, it.next()?.to_string(), refs.trim().to_string()));
+    }
+    let core: Vec<&(usize, String, String)> = ops.iter().filter(|o| !(o.1.starts_with("source") || o.1.starts_with("tee") || o.1 == "empty" || o.1.starts_with("union"))).collect();
+    if core.len() != 1 {
+        return None;
+    }
+    let op = core[0];
+    // its input must be the source (id 0) or a tee of the source
+    let inref = op.2.split(' ').next()?;
+    let innode: usize = inref.split('.').next()?.parse().ok()?;
+    let from_source = innode == 0 || ops.iter().any(|o| o.0 == innode && o.1.starts_with("tee") && o.2.starts_with("0."));
+    if !from_source {
+        return None;
+    }
+    let w: Vec<&str> = op.1.split(' ').collect();
+    let ok = match w[0] {
+        "fold" => w[2] == "sum" || w[2] == "cnt",
+        "reduce" => w[2] == "max",
+        "sort" | "persist" | "unique" | "multiset_delta" | "lattice_reduce" => true,
+        _ => false,
+    };
+    ok.then(|| op.1.clone())
+}
+
 /// one case: program `p`, input history `inputs`; prints lines, runs oracles
 fn run_case(no: u64, p: &ProgInfo, inputs: &[Vec<Vec<u64>>], mode: &str, rec: &mut Recorder) {
     let ticks = inputs.first().map(|s| s.len()).unwrap_or(0);
@@ -311,7 +347,11 @@ fn run_case(no: u64, p: &ProgInfo, inputs: &[Vec<Vec<u64>>], mode: &str, rec: &m
     }
     // (b) the blocking operator's documented result from the raw inputs (C23 corpus)
     if p.kind == "blocking" {
-        blocking_oracle(p, inputs, &outs, rec);
+        blocking_oracle(p, p.oracle, "blocking-input-incomplete", inputs, &outs, rec);
+    }
+    if let Some(tag) = unit_oracle_tag(p) {
+        rec.count("unit-oracle");
+        blocking_oracle(p, &tag, "documented-result-violated", inputs, &outs, rec);
     }
     // (c) original vs shape-perturbed variant (C22)
     if let Some(Ok(vo)) = &vouts {
